@@ -2,8 +2,8 @@ CONSTANT Variant = "mass_c11"
 INIT Init
 NEXT Next
 INVARIANT InvExpandedLaw
+INVARIANT InvTruncation
 INVARIANT InvExpandedDerived
-INVARIANT InvDerivedLaw
 INVARIANT InvDecoupling
 INVARIANT InvMass
 CHECK_DEADLOCK FALSE
